@@ -1619,7 +1619,7 @@ class Gen:
         if key in KEYS_INT:
             return r.choice([-1, 0, 1, 1, 2, 2, 3, 4])
         if key in KEYS_STR:
-            return r.choice(["", "x", "x", "y", "zz", "Zz"])
+            return r.choice(["", "x", "x", "y", "zz", "Zz", "long " * 9, "日本語" * 14])
         if key == "n":
             return r.choice([[1, 2], {"z": 1}, [], [{"q": None}]])
         return r.choice([0, 1, "x"])
